@@ -1,111 +1,18 @@
 #!/usr/bin/env python3
-"""Behaviour-preserving rewrite of a source tree used to test the checker: every local variable of every
-function is renamed (suffix), comments are dropped and the layout is normalised (ast.unparse).
-usage: alpha_rename.py <root> [suffix | @]   (@: scramble - new names share nothing with the old ones)   - rewrites <root>/syne_tune/**/*.py in place (use on a scratch worktree!)
+"""Rewrite <root>/syne_tune/**/*.py in place with every function local renamed (use on a scratch worktree!).
+usage: alpha_rename.py <root> [suffix | @]   (@: scramble - new names share nothing with the old ones)
 """
-import ast
 import os
 import sys
 
-
-class Renamer(ast.NodeTransformer):
-    def __init__(self, suffix):
-        self.suffix = suffix
-        self.stack = []
-
-    def _locals_of(self, fn):
-        params = {a.arg for a in fn.args.posonlyargs + fn.args.args + fn.args.kwonlyargs}
-        if fn.args.vararg:
-            params.add(fn.args.vararg.arg)
-        if fn.args.kwarg:
-            params.add(fn.args.kwarg.arg)
-        assigned, banned = set(), set(params)
-        todo = list(fn.body)
-        while todo:
-            n = todo.pop()
-            if isinstance(n, (ast.FunctionDef, ast.AsyncFunctionDef, ast.ClassDef)):
-                banned.add(n.name)
-                # names a nested scope binds itself must not be renamed from outside
-                if not isinstance(n, ast.ClassDef):
-                    for a in n.args.posonlyargs + n.args.args + n.args.kwonlyargs:
-                        banned.add(a.arg)
-                    if n.args.vararg:
-                        banned.add(n.args.vararg.arg)
-                    if n.args.kwarg:
-                        banned.add(n.args.kwarg.arg)
-                    for m in ast.walk(n):
-                        if isinstance(m, ast.Name) and isinstance(m.ctx, ast.Store):
-                            banned.add(m.id)
-                else:
-                    for m in ast.walk(n):
-                        if isinstance(m, ast.Name):
-                            banned.add(m.id)
-                continue
-            if isinstance(n, ast.Lambda):
-                for a in n.args.posonlyargs + n.args.args + n.args.kwonlyargs:
-                    banned.add(a.arg)
-            if isinstance(n, (ast.Global, ast.Nonlocal)):
-                banned.update(n.names)
-            if isinstance(n, ast.Name) and isinstance(n.ctx, (ast.Store, ast.Del)):
-                assigned.add(n.id)
-            if isinstance(n, ast.ExceptHandler) and n.name:
-                banned.add(n.name)
-            if isinstance(n, (ast.Import, ast.ImportFrom)):
-                for a in n.names:
-                    banned.add((a.asname or a.name).split(".")[0])
-            todo.extend(ast.iter_child_nodes(n))
-        return {x for x in assigned - banned if not x.startswith("__")}
-
-    def visit_FunctionDef(self, fn):
-        loc = self._locals_of(fn)
-        if self.suffix == "@":
-            # scramble: the new name shares nothing with the old one
-            self.depth = getattr(self, "depth", 0) + 1
-            loc = {n: f"zq{self.depth}_{i}" for i, n in enumerate(sorted(loc))}
-        else:
-            loc = {n: n + self.suffix for n in loc}
-        self.stack.append(loc)
-        fn.body = [self.visit(s) for s in fn.body]
-        self.stack.pop()
-        if self.suffix == "@":
-            self.depth -= 1
-        return fn
-
-    visit_AsyncFunctionDef = visit_FunctionDef
-
-    def visit_Name(self, n):
-        for loc in reversed(self.stack):
-            if n.id in loc:
-                return ast.copy_location(ast.Name(id=loc[n.id], ctx=n.ctx), n)
-        return n
-
-    def visit_ClassDef(self, c):
-        # class bodies inside functions: do not touch names (handled as banned)
-        saved, self.stack = self.stack, []
-        self.generic_visit(c)
-        self.stack = saved
-        return c
-
-
-def rewrite(src, suffix="_r"):
-    tree = ast.parse(src)
-    tree = Renamer(suffix).visit(tree)
-    ast.fix_missing_locations(tree)
-    return ast.unparse(tree) + "\n"
-
+sys.path.insert(0, os.path.dirname(os.path.dirname(os.path.abspath(__file__))))
+from stverif.audit.transforms import package_overlay  # noqa: E402
 
 if __name__ == "__main__":
     root = sys.argv[1]
     suffix = sys.argv[2] if len(sys.argv) > 2 else "_r"
-    n = 0
-    for d, _, fs in os.walk(os.path.join(root, "syne_tune")):
-        for f in fs:
-            if f.endswith(".py"):
-                p = os.path.join(d, f)
-                with open(p) as fh:
-                    src = fh.read()
-                out = rewrite(src, suffix)
-                with open(p, "w") as fh:
-                    fh.write(out)
-                n += 1
-    print("rewrote", n, "files")
+    ov = package_overlay(root, suffix)
+    for rel, text in ov.items():
+        with open(os.path.join(root, rel), "w") as fh:
+            fh.write(text)
+    print("rewrote", len(ov), "files")
